@@ -258,7 +258,8 @@ func CheckC02(c *ParseCase, st *Stats) *Violation {
 		}
 		want := []string(nil)
 		if o.Env {
-			want = []string{EnvValue(o)}
+			// every container of these cases has Clear(): its environment value is read as a list whose items are trimmed
+			want = []string{strings.TrimSpace(EnvValue(o))}
 		} else if c.Builtin && !o.Bool {
 			want = []string{"dflt"}
 		}
@@ -337,7 +338,7 @@ func CheckC15Parse(c *ParseCase, st *Stats) *Violation {
 			}
 			decl := []string(nil)
 			if o.Env {
-				decl = []string{EnvValue(o)}
+				decl = []string{strings.TrimSpace(EnvValue(o))}
 			}
 			if raw := out.Raw[key]; len(raw) > 0 && !reflect.DeepEqual(raw, decl) {
 				withUnflagged[key] = raw
@@ -373,6 +374,42 @@ func CheckC15Parse(c *ParseCase, st *Stats) *Violation {
 	return nil
 }
 
+// CheckC09Parse: verdict and bindings of specs holding several spec-level "--", judged by the reference semantics.
+func CheckC09Parse(c *ParseCase, st *Stats) *Violation {
+	v, out, _ := CheckAccept("C09", c, st)
+	if v != nil {
+		return v
+	}
+	if out == nil {
+		return nil
+	}
+	st.Class("doubledd:claimed")
+	if !out.Accept {
+		return nil
+	}
+	if !Verifies(c.D, c.AST, c.Argv, out.Bind, Quirks{}) {
+		if Verifies(c.D, c.AST, c.Argv, out.Bind, Quirks{KeepTainted: true, GroupEnvAlone: true}) {
+			st.Class("unclaimed:tainted-binding")
+			return nil
+		}
+		return Violf("bound values %s are not those of any valid derivation (a spec-level -- lets the tokens behind it through verbatim); spec %q argv %q [%s]",
+			fmtBind(out.Bind), c.SpecStr, c.Argv, FmtDecls(c.D))
+	}
+	dashData := false
+	for _, vals := range out.Bind {
+		for _, x := range vals {
+			if strings.HasPrefix(x, "-") && x != "-" {
+				dashData = true
+			}
+		}
+	}
+	if dashData {
+		st.Class("doubledd:dash-token-bound-as-data")
+		st.NonTrivial("dd2\x00"+c.Key(), c.Brief)
+	}
+	return nil
+}
+
 func fmtBind(m map[string][]string) string {
 	b, _ := json.Marshal(m)
 	return string(b)
@@ -402,6 +439,13 @@ func init() {
 			return Violf("bad replay file: %v", err)
 		}
 		return CheckC01(&c, StatsFor("C01.replay"))
+	})
+	RegisterReplay("C09", "parse", func(raw json.RawMessage) *Violation {
+		var c ParseCase
+		if err := json.Unmarshal(raw, &c); err != nil {
+			return Violf("bad replay file: %v", err)
+		}
+		return CheckC09Parse(&c, StatsFor("C09.replay"))
 	})
 	RegisterReplay("C15", "parse", func(raw json.RawMessage) *Violation {
 		var c ParseCase
